@@ -12,6 +12,7 @@ the specification (f itself; class of every call under structural equality of th
 import hashlib
 import json
 import os
+import shutil
 
 from vlib import common
 
@@ -88,6 +89,32 @@ def package_status(info):
         return out
 
 
+def emitted_shapes(info):
+    """Which of the four shapes the real generator emitted for every signature G<k>, read off the
+    text of deriveMem_<k> in the derived.gen.go files."""
+    import re
+    out = {}
+    for p in info["pkgs"]:
+        try:
+            src = open(os.path.join(info["dir"], p, "derived.gen.go")).read()
+        except OSError:
+            continue
+        for m in re.finditer(r"^func deriveMem_(\d+)\(.*?^}$", src, flags=re.S | re.M):
+            body = m.group(0)
+            if "map[uint64][]mem" in body:
+                sh = "bucket"
+            elif "memoized := false" in body:
+                sh = "flag"
+            elif "make(map[input]" in body:
+                sh = "input"
+            elif "m := make(map[" in body:
+                sh = "single"
+            else:
+                sh = "unknown"
+            out["G" + m.group(1)] = sh
+    return out
+
+
 def split_answer(a):
     """'<results>|<log>' -> (results string, [call indexes that reached f]) or None"""
     if a is None or "|" not in a:
@@ -136,8 +163,10 @@ def compare(rep, info):
     rep.cov["programs"] += len(info["pkgs"])
     n = 0
     distinct = set()
-    shapes, colliding, saved_calls, total_calls, raw_witness = {}, 0, 0, 0, 0
+    shapes, colliding, saved_calls, total_calls, raw_witness, raw_differs = {}, 0, 0, 0, 0, 0
     spec_bad, model_bad = [], []
+    sampled = set()
+    real_shapes, shape_bad, sigs_seen = emitted_shapes(info), {}, set()
     with open(os.path.join(cdir, "ops.txt")) as fo, open(os.path.join(cdir, "impl.txt")) as fi, \
             open(os.path.join(cdir, "model.txt")) as fm:
         for op, li, lm in zip(fo, fi, fm):
@@ -153,6 +182,9 @@ def compare(rep, info):
             if model is None:
                 raise common.CheckError("model driver rejected op %s: %s" % (f[1], lm.strip()[:200]))
             shapes[dm.get("shape", "?")] = shapes.get(dm.get("shape", "?"), 0) + 1
+            if real_shapes.get(f[3]) != dm.get("shape") and f[3] not in shape_bad:
+                shape_bad[f[3]] = (real_shapes.get(f[3]), dm.get("shape"), op)
+            sigs_seen.add(f[3])
             if dm.get("coll", "0") != "0":
                 colliding += 1
             if f[2] == "memseq":
@@ -168,15 +200,33 @@ def compare(rep, info):
                 if len(set(classes)) < len(classes):
                     distinct.add(hashlib.sha1(op.split(" ", 2)[2].encode()).digest()[:8])
             else:
+                classes = []
                 # an f that tells +0 from -0: only model = code is compared (the two clauses of the
                 # property contradict each other for such an f); count the sequences where the
                 # memoised answer indeed differs from nothing-memoised
                 raw_witness += 1
+                if impl is not None and dm.get("direct") is not None and impl.split("|")[0] != dm["direct"]:
+                    raw_differs += 1
+                    if "raw-f" in sampled and "raw-f-differs" not in sampled:
+                        sampled.add("raw-f-differs")
+                        rep.cov["samples"].append({"kind": "raw-f: memoised answer differs from f (f tells +0 from -0)",
+                                                   "op": op.strip()[:900], "impl": impl[:500], "f_itself": dm["direct"][:500]})
             if impl != model:
                 model_bad.append((op, impl, model, spec))
-            if len(rep.cov["samples"]) < 6 and n % 307 == 5:
-                rep.cov["samples"].append({"op": op.strip()[:600], "impl": (impl or "")[:400],
-                                           "model": model[:400], "spec": (spec or "")[:400]})
+            # samples: per shape the first sequence that answers some call from the table, the first
+            # sequence that meets a hash collision, the first with an f that does not respect ==
+            tag = None
+            if f[2] == "memraw":
+                tag = "raw-f"
+            elif dm.get("coll", "0") != "0":
+                tag = "collision"
+            elif len(set(classes)) < len(classes) and len(classes) >= 4:
+                tag = dm.get("shape", "?")
+            shows_results = "(" in (impl or "").split("|")[0].replace("()", "")
+            if tag and tag not in sampled and len(op) < 1500 and (shows_results or tag == "raw-f"):
+                sampled.add(tag)
+                rep.cov["samples"].append({"kind": tag, "op": op.strip()[:900], "impl": (impl or "")[:500],
+                                           "model": model[:500], "spec": (spec or "")[:500]})
     rep.cov["evaluations"] += n
     rep.cov["distinct_nontrivial"] += len(distinct)
     rep.cov["disagreements_checked"] += n
@@ -186,11 +236,18 @@ def compare(rep, info):
     rep.cov["calls_played"] = total_calls
     rep.cov["calls_answered_from_table"] = saved_calls
     rep.cov["raw_f_sequences"] = raw_witness
+    rep.cov["raw_f_sequences_where_memoised_answer_differs_from_f"] = raw_differs
     for op, impl, model, spec, why in spec_bad[:6]:
-        rep.violation("deriveMem violates the property on a call sequence: %s: impl=%s spec=%s on %s" % (
-            why, (impl or "")[:200], spec[:200], op.strip()[:300]),
+        rep.violation("deriveMem violates the property on a call sequence: %s; sequence: %s; impl=%s spec=%s" % (
+            why, op.strip()[:300], (impl or "")[:160], spec[:160]),
             {"corpus_seed": rep.seed, "op": op.strip(), "impl": impl, "model": model, "spec": spec, "why": why,
              "types": os.path.join(cdir, "prelude.txt")}, True)
+    rep.cov["signatures_played"] = len(sigs_seen)
+    rep.cov["signatures_shape_checked_against_emitted_text"] = len(sigs_seen) - len(shape_bad)
+    if shape_bad:
+        g, (real, mod, op) = sorted(shape_bad.items())[0]
+        rep.violation("correspondence T1 broken: the generator emitted shape %s for %d signatures where the model's shapeOf says otherwise, first %s: model %s" % (
+            real, len(shape_bad), g, mod), {"correspondence": "T1 shapeOf", "op": op.strip(), "emitted": real, "model": mod}, False)
     bad_ops = set(x[0] for x in spec_bad)
     rest = [m for m in model_bad if m[0] not in bad_ops]
     if rest:
@@ -222,28 +279,62 @@ def run(rep):
         "goroutine-safe and the property does not claim it)",
     ]
     proof_part(rep)
-    info = common.prepare_corpus(rep.tier, rep.seed, PLUGINS, gen="genmem")
-    rep.cov["corpus"] = info["stats"]
-    if True:
+    # .work/repo-<hash>/ is pruned by concurrent checks that run against other trees (mutation
+    # self-tests): when the corpus directory disappears under us, prepare it again
+    for attempt in range(4):
         try:
+            info = common.prepare_corpus(rep.tier, rep.seed, PLUGINS, gen="genmem")
+            if not os.path.exists(os.path.join(info["dir"], "ops.txt")):
+                raise FileNotFoundError(info["dir"])
+            rep.cov["corpus"] = info["stats"]
             st = package_status(info)
             rep.cov["packages"] = {p: {"goderive_rc": e["goderive_rc"], "vet_rc": e["vet_rc"]} for p, e in st.items()}
+            pkg_violations = []
             for p, e in st.items():
                 if e["goderive_rc"] != 0:
-                    rep.violation("goderive exits %s on package %s of the Mem corpus: %s" % (
+                    pkg_violations.append(("goderive exits %s on package %s of the Mem corpus: %s" % (
                         e["goderive_rc"], p, e.get("goderive_err", "")[-300:]),
-                        {"corpus": info["dir"], "cmd": "goderive ./" + p}, True)
+                        {"corpus": info["dir"], "cmd": "goderive ./" + p}))
                 elif e["vet_rc"] != 0:
-                    rep.violation("emitted deriveMem code of package %s does not pass go vet: %s" % (p, e.get("vet_err", "")[:500]),
-                                  {"corpus": info["dir"], "cmd": "go vet ./" + p}, True)
-        except (OSError, common.CheckError) as e:
-            rep.notes.append("per-package status not available: %s" % e)
-    compare(rep, info)
+                    pkg_violations.append(("emitted deriveMem code of package %s does not pass go vet: %s" % (p, e.get("vet_err", "")[:500]),
+                                           {"corpus": info["dir"], "cmd": "go vet ./" + p}))
+            saved = (dict(rep.cov), list(rep.violations))
+            try:
+                for what, obj in pkg_violations:
+                    rep.violation(what, obj, True)
+                compare(rep, info)
+            except FileNotFoundError:
+                rep.cov, rep.violations = saved
+                raise
+            return
+        except FileNotFoundError as e:
+            if attempt == 3:
+                raise common.CheckError("corpus directory keeps disappearing (concurrent pruning of .work): %s" % e)
+            shutil.rmtree(common.corpus_dir(rep.tier, rep.seed, PLUGINS, "genmem"), ignore_errors=True)
 
 
 def replay(rep, path):
+    import subprocess
     r = json.load(open(path))
     print("replay: re-running the Mem corpus of seed %s; failing sequence: %s" % (r.get("seed"), r.get("op", r.get("what"))))
     rep.seed, rep.tier = r.get("seed", rep.seed), r.get("tier", rep.tier)
     run(rep)
+    op = r.get("op")
+    if op and op.startswith("op "):
+        # play the recorded sequence alone on the current emitted code and on the model
+        cdir = common.corpus_dir(rep.tier, rep.seed, PLUGINS, "genmem")
+        try:
+            pi = subprocess.run([os.path.join(cdir, "corpus.bin")], input=(op + "\n").encode(), stdout=subprocess.PIPE, timeout=120)
+            pre = open(os.path.join(cdir, "prelude.txt")).read()
+            pm = subprocess.run([common.driver_path()], input=(pre + op + "\n").encode(), stdout=subprocess.PIPE, timeout=120)
+            _, di = common.parse_kv(pi.stdout.decode().strip())
+            _, dm = common.parse_kv(pm.stdout.decode().strip())
+            print("replay: impl =%s" % di.get("impl"))
+            print("replay: model=%s" % dm.get("model"))
+            print("replay: spec =%s" % dm.get("spec"))
+            if dm.get("spec") is not None:
+                why = judge(di.get("impl"), dm["spec"])
+                print("replay: the property %s on this sequence%s" % ("FAILS" if why else "holds", (": " + why) if why else ""))
+        except (OSError, subprocess.SubprocessError, ValueError) as e:
+            print("replay: could not play the single sequence: %s" % e)
     return rep.finish()
